@@ -75,3 +75,80 @@
         assert!(got == 3 && out[0] == 0x61 && out[1] == 0x62 && out[2] == 0x63);
         assert!(matches!(r.read(&mut out[..2]), Ok(0)));
     }
+
+    // ---------------------------------------------------------------- C08.scan / C06.lzip: backward member scan
+    /// seekable source over a fixed array that counts its calls: the scan may use at most a number of I/O calls linear in
+    /// the file size (each accepted member costs 2 seeks + 2 reads and consumes >= 1 byte of the file)
+    pub(crate) struct SeekSrc<const N: usize> { pub(crate) buf: [u8; N], pub(crate) pos: u64, pub(crate) calls: u32 }
+    impl<const N: usize> Read for SeekSrc<N> {
+        fn read(&mut self, out: &mut [u8]) -> io::Result<usize> {
+            self.calls += 1;
+            assert!(self.calls <= 4 * N as u32 + 8, "member scan does not make progress (unbounded I/O on a finite file)");
+            let p = if self.pos > N as u64 { N } else { self.pos as usize };
+            let avail = N - p;
+            let n = if out.len() < avail { out.len() } else { avail };
+            let mut i = 0;
+            while i < n { out[i] = self.buf[p + i]; i += 1; }
+            self.pos += n as u64;
+            Ok(n)
+        }
+    }
+    impl<const N: usize> Seek for SeekSrc<N> {
+        fn seek(&mut self, to: SeekFrom) -> io::Result<u64> {
+            self.calls += 1;
+            assert!(self.calls <= 4 * N as u32 + 8, "member scan does not make progress (unbounded I/O on a finite file)");
+            match to {
+                SeekFrom::Start(p) => { self.pos = p; }
+                SeekFrom::End(d) => { assert!(d <= 0 && (-d) as u64 <= N as u64); self.pos = (N as i64 + d) as u64; }
+                SeekFrom::Current(d) => { self.pos = (self.pos as i64 + d) as u64; }
+            }
+            Ok(self.pos)
+        }
+    }
+    /// io::Error::new(kind, msg) boxes a String (drop glue explodes under CBMC): kind-preserving stub, message dropped
+    fn io_err_new_stub<E>(kind: io::ErrorKind, _e: E) -> io::Error where E: Into<Box<dyn std::error::Error + Send + Sync>> { io::Error::from(kind) }
+    /// scan_members on EVERY file of N bytes: returns (no panic, no arithmetic overflow, bounded I/O); Ok => the members
+    /// are in forward order, contiguous, the last one ends at the end of the file, each starts with the magic and is
+    /// non-empty, and none starts before offset 0.
+    fn lzip_scan<const N: usize>() {
+        unsafe { SPAWNED = 0; }
+        let data: [u8; N] = vk::any();
+        let (tx, rx) = mpsc::channel::<ResultUnit>();
+        let mut r = core::mem::ManuallyDrop::new(LZIPReaderMT {
+            inner: Some(SeekSrc::<N> { buf: data, pos: 0, calls: 0 }), members: Vec::new(), result_rx: rx, result_tx: tx,
+            next_sequence_to_dispatch: 0, next_sequence_to_return: 0, last_sequence_id: None, out_of_order_chunks: BTreeMap::new(),
+            current_chunk: Cursor::new(Vec::new()), shutdown_flag: Arc::new(AtomicBool::new(false)), error_store: Arc::new(Mutex::new(None)),
+            state: State::Dispatching, work_queue: WorkStealingQueue::new(), active_workers: Arc::new(AtomicU32::new(0)), max_workers: 1,
+            worker_handles: Vec::new() });
+        let res = r.scan_members();
+        if res.is_ok() {
+            let m = &r.members;
+            assert!(m.len() >= 1 && m.len() <= N);
+            let last = &m[m.len() - 1];
+            assert!(last.start_pos + last.compressed_size == N as u64);
+            let mut i = 0;
+            while i < 8 {
+                if i < m.len() {
+                    assert!(m[i].compressed_size >= 1, "empty member record");
+                    let s = m[i].start_pos as usize;
+                    assert!(s + 4 <= N && data[s] == b'L' && data[s + 1] == b'Z' && data[s + 2] == b'I' && data[s + 3] == b'P');
+                    if i + 1 < m.len() { assert!(m[i].start_pos + m[i].compressed_size == m[i + 1].start_pos, "members overlap or leave a gap"); }
+                }
+                i += 1;
+            }
+            assert!(r.member_count() == m.len());
+        }
+        assert!(r.inner.is_some() || res.is_err());
+    }
+    #[kani::proof]
+    #[kani::unwind(22)]
+    //@ERR
+    #[kani::stub(LZIPReaderMT::spawn_worker_thread, spawn_stub)]
+    #[kani::stub(std::io::error::Error::new, io_err_new_stub)]
+    fn c08_lzip_scan_n26() { lzip_scan::<26>(); }
+    #[kani::proof]
+    #[kani::unwind(22)]
+    //@ERR
+    #[kani::stub(LZIPReaderMT::spawn_worker_thread, spawn_stub)]
+    #[kani::stub(std::io::error::Error::new, io_err_new_stub)]
+    fn c08_lzip_scan_n30() { lzip_scan::<30>(); }
